@@ -510,7 +510,7 @@ func (fr *Frame) postLoopCtx() *LoopCtx {
 	n := 0
 	for _, lc := range fr.loopCtx {
 		if lc != nil && lc.Enum != "" {
-			found = &LoopCtx{Enum: lc.Enum, Card: lc.Card, IterCount: lc.Card, Vars: map[string]TV{}}
+			found = &LoopCtx{Enum: lc.Enum, Card: lc.Card, KeyT: lc.KeyT, IterCount: lc.Card, Vars: map[string]TV{}}
 			n++
 		}
 	}
